@@ -426,6 +426,18 @@ class RdmsOps:
             return False
         try:
             d = src.obj.to_dict()
+            if o['a'][2] % 3 == 0 and self.pool.prop != 'C12':
+                # the form a dictionary read from a file has: a descriptor stored item by item arrives as a mapping from the
+                # item number (as text) to the value -- in whatever order the file lists its keys
+                d = deepcopy(d)
+                for dn in ('rdm_descriptors', 'pattern_descriptors'):
+                    for k_ in sorted(d[dn]):
+                        if k_ != 'index' and o['a'][3] % 2 == (0 if dn == 'rdm_descriptors' else 1):
+                            vals_ = list(d[dn][k_])
+                            order_ = sorted(range(len(vals_)), key=str, reverse=bool(o['a'][4] % 2))
+                            d[dn][k_] = {str(i_): vals_[i_] for i_ in order_}
+                            break
+                self.ctx.probe('roundtrip_dict_keyed_form')
             res = rdms_from_dict(deepcopy(d) if (o['flag'] or self.pool.prop != 'C12') else d)
         except Exception as e:
             return self._raise('roundtrip_dict', e)
